@@ -1,13 +1,13 @@
 #!/usr/bin/env bash
-# usage: tools/verify_seed.sh <Cxx> <A|B>
-# Confirms, in the scratch worktree /tmp/mut-<Cxx>, what a seeded change claims:
+# usage: tools/verify_seed.sh <Cxx> <A|B> [<worktree-prefix, default /tmp/mut->]
+# Confirms, in the scratch worktree <prefix><Cxx>, what a seeded change claims:
 #   (1) the patch applies to a clean HEAD and the crate builds with the feature sets,
 #   (2) the unedited baseline suite still passes with the change,
 #   (3) the demonstration fails with the change and passes without it.
 # Writes /tmp/mut-<Cxx>/MUTATION/verify_<V>.json
 set -u
-ID="$1"; V="$2"
-W=/tmp/mut-$ID
+ID="$1"; V="$2"; PFX="${3:-/tmp/mut-}"
+W=$PFX$ID
 M=$W/MUTATION
 cd "$W" || exit 2
 export CARGO_NET_OFFLINE=true
